@@ -305,6 +305,7 @@ func genCoreCase(r *hx.Rand, abstract, wild bool, kind string) (coreCase, bool) 
 	if kind == "mutation" && cf.Merged.Schema.Mutation == nil {
 		kind = "query"
 	}
+	oo.IDVar = true
 	op := fed.GenOp(r, cf.Merged.Schema, cf.F.Data, kind, oo)
 	if op == nil {
 		return coreCase{}, false
